@@ -33,6 +33,10 @@ def main():
         tmp("p", T1, 6), tmp("p", T1 + WRAP_S + (5 + WRAP_NS) // 10 ** 9, (5 + WRAP_NS) % 10 ** 9),
         imm("text:x"), imm("/ab"), imm("blob:x"), tmp("text:a", T1, 5), imm("pimmutable"), imm("int64:"),
         imm("bool:true"), imm("q\"@[x]\\"), imm("é"), tmp("é", T2), imm("/text:x"), imm("text:"),
+        # near misses of PLAUSIBLE OTHER ENCODINGS (Identity.tla, Variants): the anchor written as an unpadded varint
+        # (UnixNano -51 is the single byte 'e': "foo"+"immutable" = "fooimmutabl"+'e'), or as decimal text
+        # ("k"+"123" = "k1"+"23")
+        imm("foo"), tmp("fooimmutabl", -1, 999999949), tmp("k", 0, 123), tmp("k1", 0, 23),
     ]
     lits = [
         lit("bool", True), lit("bool", False), lit("text", b"true"), lit("text", b"false"), lit("blob", b"true"),
@@ -45,6 +49,7 @@ def main():
         lit("text", b"ximmutable"), lit("blob", b"ximmutable"), lit("text", b""), lit("blob", b""), lit("text", b"x"),
         lit("blob", b"x"), lit("text", b"a" + v16), lit("text", b"text:x"), lit("text", b"a"), lit("text", b"a\x00"),
         lit("text", b"immutable"), lit("text", b"\xff\xfe"), lit("blob", b"\xff\xfe"),
+        lit("int64", 2 ** 56),      # with 2^55: varints that agree in their first eight bytes
     ]
     values = nodes + preds + lits
     objs = [obj(v) for v in values]
@@ -65,6 +70,8 @@ def main():
         triple(s, p, lits[20]), triple(s, p, lits[21]),                        # +0 / -0
         triple(s, P[14], lits[29]), triple(nodes[9], P[16], o),
         triple(s, p, P[1]), triple(s, p, P[2]),                                 # predicate-valued objects, same instant
+        triple(s, P[19], o), triple(s, P[20], o), triple(s, P[21], o), triple(s, P[22], o),   # the other-encoding near misses
+        triple(s, p, lits[15]), triple(s, p, lits[38]),
     ]
     allv = values + objs + triples
     # every component of a triple must itself be listed (Identity.tla refers to them by index)
